@@ -125,6 +125,7 @@ def run(prog, rep):
             continue
         # fields filled from acquiring calls, per record
         owned = {}
+        list_elems = {}
         for fn in u.functions.values():
             # locals holding an acquisition result in this function
             holders = {}
@@ -151,6 +152,11 @@ def run(prog, rep):
                         a0 = strip_casts(r["args"][0]) if r.get("args") else None
                         if a0 is not None and a0["k"] == "member" and a0["field"] == l["field"] and root_var(a0) == root_var(l):
                             owned.setdefault(l["rec"], {}).setdefault(l["field"], []).append((fn.name, cn + " (list nodes)", line(n)))
+                            # ... and so do the elements, when they are objects of a record type of this unit (made here, linked here)
+                            if len(r["args"]) > 1:
+                                et = u.type_of(strip_casts(r["args"][1]))
+                                if et and et.get("k") == "ptr" and u.types[et["p"]].get("k") == "rec" and u.types[et["p"]].get("rec") in u.records:
+                                    list_elems[(l["rec"], l["field"])] = u.types[et["p"]].get("rec")
                         continue
                     owned.setdefault(l["rec"], {}).setdefault(l["field"], []).append((fn.name, cn, line(n)))
         # fd fields: field assigned from a local holding socket()/accept()
@@ -171,6 +177,24 @@ def run(prog, rep):
             nobj += 1
             released = released_fields(u, fr, T)
             skipped = unreleased_paths(u, fr, T, [f_ for f_ in flds if (rec, f_) not in OWN_EXCEPTIONS and f_ in released])
+            # elements of owned lists: the free function runs the element type's destructor over the list (p_list_foreach with it, or a
+            # loop that calls it) before the nodes go
+            for (rk, fk), erec in sorted(list_elems.items()):
+                if rk != rec:
+                    continue
+                dfs = [g.name for g in u.functions.values() if (g.name.endswith("_free") or g.name.endswith("_free_internal")) and g.params
+                       and u.types[g.params[0]["t"]].get("k") == "ptr" and u.types[u.types[g.params[0]["t"]]["p"]].get("rec") == erec]
+                if not dfs:
+                    continue
+                fv_ = fr.inlined()
+                used = False
+                for (b, i, n) in fv_.nodes(elsewhere=True):
+                    if n["k"] == "call" and n.get("callee") in dfs:
+                        used = True
+                    if n["k"] == "call" and n.get("callee") == "p_list_foreach" and any(x["k"] == "ref" and x["name"] in dfs for a in n["args"][1:2] for x in walk(a, elsewhere=True)):
+                        used = True
+                rep.ob("C20.1", fr, "elements:%s.%s" % (rec, fk), used, "the %s objects linked into %s.%s are released through %s before the list nodes" % (erec, rec, fk, dfs[0]) if used else
+                       "%s releases the nodes of %s.%s but never runs %s over the %s objects they hold: every element leaks with everything it owns" % (fr.name, rec, fk, dfs[0], erec), fr.loc[0])
             for fld, sites in sorted(flds.items()):
                 if (rec, fld) in OWN_EXCEPTIONS:
                     rep.note("C20.1 exception %s.%s: %s" % (rec, fld, OWN_EXCEPTIONS[(rec, fld)]))
